@@ -5,6 +5,7 @@ import GoNeat.Driver.Json
 import GoNeat.Model.FastSolver
 import GoNeat.Model.ActExact
 import GoNeat.Spec.Solver
+import GoNeat.Proofs.FastFFAll
 
 namespace GoNeat.Driver
 open Lean GoNeat.Solver GoNeat.ActExact GoNeat.SolverSpec
@@ -215,9 +216,15 @@ def hSolverRun : Handler := fun j => do
     | some g => jsonDiff tag m g
     | none => some s!"{tag}: missing in implementation output"
   let mut diff := cmp "std" mStd <|> cmp "stdRec" mStdRec
+  -- number of forward steps Relax executes on the fresh loaded instance (it stops as soon as no signal moved by more than
+  -- delta): Relax is held to the feed-forward value only when that reaches the longest path - the property's hypothesis
+  -- "propagating for at least as many steps as the longest sensor-to-output path" (C12.fast_relax: outputs of rank <=
+  -- relaxCount hold the value)
+  let mut relaxSteps : Nat := 0
   match Fast.ofNet net with
   | .error e => diff := diff <|> jsonDiff "buildErr" (jS e.str) ((fldOpt out "buildErr").getD Json.null)
   | .ok fn =>
+    relaxSteps := Fast.relaxCount fn sigmaExact delta relaxMax.toNat (Fast.loadSensors fn xs (Fast.init fn)).1
     let fastPath (op : Fast.Op Float) : Json :=
       let l := Fast.loadSensors fn xs (Fast.init fn)
       match l.2 with
@@ -276,7 +283,7 @@ def hSolverRun : Handler := fun j => do
     let recDepth := (maxDepth net (net.nodes.map fun _ => false)).1
     let stdRecOk ← if recDepth ≥ depth then pathOk "stdRec" true else pure none
     specFail := (← pathOk "std" true) <|> stdRecOk <|> (← pathOk "fwd" false) <|> (← pathOk "rec" false)
-                  <|> (← pathOk "relax" false)
+                  <|> (← if relaxSteps ≥ depth then pathOk "relax" false else pure none)
     if xs2.length == xs.length && want2.all Option.isSome then
       let stdRec2Ok ← if recDepth ≥ depth then path2Ok "StdRec2" true else pure none
       -- (Relax on a used instance may legitimately stop before `depth` steps when all changes are below delta: the
